@@ -72,6 +72,90 @@ def micro_c04_scenario(index: int, r) -> Dict[str, Any]:
             "on_order_event": [], "jobs": [], "ranks": list(ranks), "micro_index": index}
 
 
+def micro_c04b_scenario(r) -> Dict[str, Any]:
+    """One order, two or three decisive bars, a volume-share liquidity model with price impact: the order takes a
+    large share of a bar's liquidity, so the slipped price moves towards (or past) the limit / the bar's range; a
+    stop may be reached in one bar and the limit only in a later one that opens beyond it."""
+    wo = weak_orderings()
+    kind = r.choice(["limit", "stop", "stop_limit", "stop_limit", "market"])
+    side = r.choice(["buy", "sell"])
+    bp, qp = r.choice([(0, 2), (2, 2), (8, 2), (4, 5)])
+    base = D(r.choice([5, 50, 1000]))
+    step = max(q(base * D(r.choice(["0.02", "0.07"])), qp), unit(qp))
+    limit_pct = D(r.choice([25, 50, 100]))
+    impact = r.choice(["5", "10", "50"])
+    share = D(r.choice(["0.1", "0.5", "0.9", "1", "1.5"]))
+    vol = D(r.choice([40, 400, 1000]))
+    amount = max(q(vol * limit_pct / 100 * share, bp), unit(bp))
+    bars = [[1, _s(base), _s(base), _s(base), _s(base), _s(vol)]]
+    px = {}
+    for t in range(2, 2 + r.choice([2, 2, 3])):
+        ranks = wo[r.randrange(len(wo))]
+        off = r.randint(-2, 2)
+        vals = {name: max(base + step * (rk + off), unit(qp)) for name, rk in zip(ITEMS, ranks)}
+        if t == 2:
+            px = vals                       # limit and stop are placed relative to the first decisive bar
+        lo_, hi_ = min(vals["low"], vals["open"], vals["close"]), max(vals["high"], vals["open"], vals["close"])
+        bars.append([t, _s(vals["open"]), _s(hi_), _s(lo_), _s(vals["close"]), _s(vol * D(r.choice(["1", "1", "0.5", "3"])))])
+    order = {"op": "order", "kind": kind, "side": side, "pair": "BTC/USD", "amount": _s(amount),
+             "auto_borrow": False, "auto_repay": False}
+    if kind in ("limit", "stop_limit"):
+        order["limit"] = _s(px["limit"])
+    if kind in ("stop", "stop_limit"):
+        order["stop"] = _s(px["stop"])
+    fee = None if r.random() < 0.7 else {"pct": r.choice(["0.1", "1.5"]), "min": "0"}
+    return {"class": "micro_c04b", "symbols": {"BTC": bp, "USD": qp}, "pairs": [["BTC", "USD"]], "explicit_pair_info": [],
+            "fee": fee, "liq": {"limit": _s(limit_pct), "impact": impact}, "lend": None, "max_concurrent": 50,
+            "bars": {"BTC/USD": bars}, "init": {"USD": "1000000000", "BTC": "1000000"},
+            "actions": {"BTC/USD@1": [order]}, "on_order_event": [], "jobs": []}
+
+
+def micro_c04c_scenario(r) -> Dict[str, Any]:
+    """Long quiet histories of two or three pairs with orders resting far from the market, placed at scattered
+    times, and one final bar per pair whose range reaches every limit and stop: with unlimited liquidity and ample
+    funds each resting order must be filled completely by that bar, however long it has been waiting and whatever
+    happened to the exchange's list of open orders in between."""
+    names = ["BTC", "ETH", "LTC"][:r.choice([2, 2, 3])]
+    symbols = {n: r.choice([2, 4]) for n in names}
+    symbols["USD"] = 2
+    n = r.randint(26, 80)
+    bars, actions = {}, {}
+    for k, b in enumerate(names):
+        p = D(r.choice([40, 300, 5000]))
+        rows = []
+        for t in range(1, n):
+            o = q(p * D(str(round(r.uniform(0.99, 1.01), 4))), 2)
+            c = q(p * D(str(round(r.uniform(0.99, 1.01), 4))), 2)
+            rows.append([t, _s(o), _s(max(o, c) + D("0.01")), _s(min(o, c) - D("0.01")), _s(c), "1000"])
+        rows.append([n, _s(p), _s(q(p * D("2.5"), 2)), _s(q(p * D("0.4"), 2)), _s(p), "1000"])
+        if r.random() < 0.5:
+            rows.append([n + 1, _s(p), _s(p), _s(p), _s(p), "1000"])
+        bars[f"{b}/USD"] = rows
+        for _ in range(r.randint(1, 4)):
+            t = r.randint(1, n - 2)
+            # market and stop orders never rest (fill-or-kill on their first bar): only limit and stop-limit orders wait
+            kind, side = r.choice([("limit", "buy"), ("limit", "sell"), ("limit", "buy"), ("stop_limit", "buy"), ("stop_limit", "sell")])
+            far_low, far_high = _s(q(p * D("0.5"), 2)), _s(q(p * D("2"), 2))
+            o_ = {"op": "order", "kind": kind, "side": side, "pair": f"{b}/USD", "auto_borrow": False, "auto_repay": False,
+                  "amount": _s(max(q(D(r.choice(["1", "0.5", "3"])), symbols[b]), unit(symbols[b])))}
+            if kind == "limit":
+                o_["limit"] = far_low if side == "buy" else far_high
+            elif kind == "stop":
+                o_["stop"] = far_high if side == "buy" else far_low
+            elif side == "buy":
+                o_["stop"], o_["limit"] = far_high, _s(q(p * D("2.4"), 2))
+            else:
+                o_["stop"], o_["limit"] = far_low, _s(q(p * D("0.42"), 2))
+            # the request may come from the handler of another pair's bar
+            src = r.choice(names)
+            actions.setdefault(f"{src}/USD@{t}", []).append(o_)
+    init = {"USD": "1000000000"}
+    init.update({b: "1000000" for b in names})
+    return {"class": "micro_c04c", "symbols": symbols, "pairs": [[b, "USD"] for b in names], "explicit_pair_info": [],
+            "fee": None, "liq": None, "lend": None, "max_concurrent": r.choice([1, 50]), "bars": bars, "init": init,
+            "actions": actions, "on_order_event": [], "jobs": []}
+
+
 def micro_c06_scenario(r) -> Dict[str, Any]:
     bp, qp = r.choice([(0, 2), (2, 2), (8, 2), (3, 0), (4, 5), (8, 8), (0, 0)])
     base = D(r.choice(["0.5", "7", "50", "1000", "23456.78"]))
@@ -136,9 +220,39 @@ def micro_c10_scenario(r) -> Dict[str, Any]:
     return sc
 
 
+def micro_c08_hold_raid(r) -> Dict[str, Any]:
+    """All the money is reserved by two buy orders; the price gaps up just enough that the first (all-or-nothing) one
+    costs more than its own reservation but less than what both orders hold together. It has to be refused: the
+    difference is reserved for the other order, which rests below the market."""
+    bp, qp = r.choice([(0, 2), (2, 2), (3, 2), (8, 2)])
+    p0 = D(r.choice([50, 400, 1000]))
+    gap = D(r.choice(["1.05", "1.2", "1.5"]))
+    a = max(q(D(r.choice([2, 10, 40])), bp), unit(bp))
+    b = max(q(a * (gap - 1) * D(r.choice(["1.3", "2", "5"])), bp), unit(bp))
+    rest = max(q(p0 * D(r.choice(["0.9", "0.5"])), qp), unit(qp))
+    p1 = max(q(p0 * gap, qp), unit(qp))
+    usd = q(a * p0 + b * rest, qp) + unit(qp) * r.choice([0, 1, 3])
+    vol = (a + b) * 100
+    first = {"op": "order", "kind": r.choice(["market", "stop"]), "side": "buy", "pair": "BTC/USD", "amount": _s(a),
+             "stop": _s(p0), "auto_borrow": False, "auto_repay": False}
+    resting = {"op": "order", "kind": "limit", "side": "buy", "pair": "BTC/USD", "amount": _s(b), "limit": _s(rest),
+               "auto_borrow": False, "auto_repay": False}
+    orders = [first, resting] if r.random() < 0.5 else [resting, first]
+    bars = [[1, _s(p0), _s(p0), _s(p0), _s(p0), _s(vol)], [2, _s(p1), _s(p1), _s(p1), _s(p1), _s(vol)],
+            [3, _s(p1), _s(p1), _s(p1), _s(p1), _s(vol)]]
+    return {"class": "micro_c08", "symbols": {"BTC": bp, "USD": qp}, "pairs": [["BTC", "USD"]], "explicit_pair_info": [],
+            "base_fee_pct": None, "early_lookup": False, "fee": None,
+            "liq": r.choice([None, {"limit": "100", "impact": "0"}]), "lend": None, "max_concurrent": 50,
+            "bars": {"BTC/USD": bars}, "init": {"USD": _s(usd), "BTC": "0"},
+            "actions": {"BTC/USD@1": orders, "BTC/USD@2": [{"op": "cancel", "among": "open", "pick": 0}, {"op": "query"}]},
+            "on_order_event": [], "jobs": []}
+
+
 def micro_c08_scenario(r) -> Dict[str, Any]:
     """Orders competing for one bar's liquidity and for the same funds: an earlier all-or-nothing order that fits the
     liquidity but cannot be paid after a price gap, followed by orders that fit what is (or should be) left."""
+    if r.random() < 0.3:
+        return micro_c08_hold_raid(r)
     bp, qp = r.choice([(0, 2), (2, 2), (3, 0), (8, 2)])
     p0 = D(r.choice([5, 50, 400]))
     gap = D(r.choice(["2", "3", "0.4", "1"]))
@@ -280,6 +394,19 @@ def run_micro(cls: str, r, prop: str, res: ShardResult, other: collections.Count
         res.count("micro_c04_runs")
         res.nontrivial.add(common.digest(["micro_c04", sc["ranks"], sc["actions"]["BTC/USD@1"][0]["kind"],
                                           sc["actions"]["BTC/USD@1"][0]["side"]]))
+    elif cls == "micro_c04c":
+        sc = micro_c04c_scenario(r)
+        run = props.one(prop, sc, res, other)
+        res.count("micro_c04c_runs")
+        res.count("micro_c04c_resting_orders", len(run.order_seq))
+    elif cls == "micro_c04b":
+        sc = micro_c04b_scenario(r)
+        run = props.one(prop, sc, res, other)
+        res.count("micro_c04b_runs")
+        if run.stats["fill_checks"]:
+            a = sc["actions"]["BTC/USD@1"][0]
+            res.nontrivial.add(common.digest(["micro_c04b", a["kind"], a["side"], sc["liq"], len(sc["bars"]["BTC/USD"]),
+                                              sorted(s_ for s_ in run.sig if s_[0] == "fill")]))
     elif cls == "micro_c06":
         sc = micro_c06_scenario(r)
         run_boundary(sc, prop, res, other)
